@@ -27,14 +27,23 @@ def rewrite_configs(scs, limit=120):
     groups = {}
     for sc in scs:
         r = sc['req']
-        if r['proto'] != 'h1' or r['kind'] != 'normal' or r['custom'] != 'absent':
+        if r['kind'] != 'normal' or r['custom'] != 'absent':
             continue
+        if r['proto'] == 'h2':
+            # through the fork's own Transport: what Go's client cannot put on the wire is left to the raw-frame drivers
+            hop = {'Connection', 'Keep-Alive', 'Upgrade', 'Te', 'Transfer-Encoding', 'Proxy-Connection', 'Host'}
+            if len(r['ua']) > 1 or r['ua'] == [''] or r['fam'] == 'target' or r.get('scheme', 'https') != 'https' or any(l['k'] in hop for l in r['lines']):
+                continue
         groups.setdefault((r['probe'], r['preserveHost'], r.get('prefix', '')), []).append(sc)
     cfgs, index = [], []
     for (probe, ph, prefix), lst in sorted(groups.items()):
+        # both protocols within the limit: alternate
+        a = [x for x in lst if x['req']['proto'] == 'h1']
+        b = [x for x in lst if x['req']['proto'] == 'h2']
+        lst = [x for pair in zip(a, b) for x in pair] + a[len(b):] + b[len(a):]
         lst = lst[:limit]
         cfgs.append({'args': ['-enable-kubernetes-probe=%s' % str(probe).lower(), '-preserve-host=%s' % str(ph).lower()], 'forward_path': prefix,
-                     'requests': [{'id': sc['id'], 'method': sc['req']['method'], 'path': sc['req']['path'], 'host': sc['req']['host'], 'ua': sc['req']['ua'],
+                     'requests': [{'proto': sc['req']['proto'], 'id': sc['id'], 'method': sc['req']['method'], 'path': sc['req']['path'], 'host': sc['req']['host'], 'ua': sc['req']['ua'],
                                    'probeText': sc['req']['probeText'], 'lines': sc['req']['lines']} for sc in lst]})
         index.append(lst)
     return cfgs, index
